@@ -502,7 +502,13 @@ Inductive callkind :=
          Err() is non-nil at all times): the connection ends - cut, peer EOF or local Close - while
          request k waits for the acknowledgement of its first packet (phase2: of the PUBREL), long
          before the timeout: the error OnError receives *)
-| CkRetryRetx (k : reqkind) (phase2 : bool) (n : N).
+| CkRetryRetx (k : reqkind) (phase2 : bool) (n : N)
+| CkReconnConnect (hist : N).
+      (* ReconnectClient.Connect (reconnclient.go:67-207): the caller's context (Err() = cause) ends before
+         a first connection is established, after the history number hist of failed attempts (dial
+         errors, refused CONNACKs, handshake deadlines, transports closed before CONNACK, mixtures:
+         table in harness/c19.go). The first dial / connect errors only go into the failure TEXT;
+         the chain carries ctx.Err(): wrapErrorf(ctx.Err(), ...) at :206 *)
       (* RetryClient with ResponseTimeout: request k is interrupted once (the peer closes before the
          acknowledgement of the first packet, or - phase2, QoS 2 - of the PUBREL), then SetClient +
          Connect + Retry on a new connection whose broker withholds the acknowledgement, n times in a
@@ -546,6 +552,7 @@ Definition call_error (id : nat) (ck : callkind) (cause : err) : err :=
       else if n =? 1 then wrap_error id cause                                 (* keepalive.go:48 *)
       else ping_impl id conn_client (script_of FWrite1 cause)                 (* keepalive.go:56: return err *)
   | CkRetryRetx k phase2 n => retx_error id k phase2 n
+  | CkReconnConnect _ => wrap_error id cause
   | CkRetryClosed k phase2 =>
       (* the select arm `case <-c.connClosed` reports ErrClosedTransport, whatever ctx.Err() says *)
       req_error id k (script_of (if phase2 then FClosed2 else FClosed1) ENil)
@@ -916,6 +923,7 @@ Definition call_ok (ck : callkind) : bool :=
   | CkNotConnected k => match k with KConnect => false | _ => true end
   | CkServe n => n <=? 4
   | CkKeepAlive n => n <=? 2
+  | CkReconnConnect hist => hist <=? 13
   | CkRetryClosed k phase2 =>
       match k with KPub2 => true | KPub1 | KSub | KUnsub => negb phase2 | _ => false end
   | CkRetryRetx k phase2 n =>
@@ -930,6 +938,7 @@ Definition uses_cause (ck : callkind) : bool :=
   | CkConnectOpt | CkRetryConnectOpt => true
   | CkRetryPing _ f => match f with FClosed1 | FClosed2 => false | _ => true end
   | CkKeepAlive n => negb (n =? 0)
+  | CkReconnConnect _ => true
   | _ => false
   end.
 
@@ -949,6 +958,7 @@ Definition call_sentinel (ck : callkind) : sentinel :=
   | CkKeepAlive _ => SPingTimeout
   | CkRetryRetx _ _ _ => SDeadlineExceeded
   | CkRetryClosed _ _ => SClosedTransport
+  | CkReconnConnect _ => SClosedTransport (* unused: uses the cause *)
   | CkConnectOpt | CkRetryConnectOpt => SClosedTransport (* unused: these use the cause *)
   end.
 
@@ -1017,6 +1027,7 @@ Definition ctx_call (ck : callkind) : bool :=
   | CkReq k f => call_ok ck && match f with FCtx1 | FCtx2 => true | _ => false end
   | CkRetryPing _ f => match f with FCtx1 => true | _ => false end
   | CkKeepAlive n => n =? 1
+  | CkReconnConnect hist => hist <=? 13
   | _ => false
   end.
 
